@@ -84,8 +84,23 @@ func (l *Loaded) FindFunc(ct *Contract) *ssa.Function {
 	if p == nil {
 		return nil
 	}
+	name, anon := ct.Func, ""
+	if i := strings.Index(name, "$"); i >= 0 {
+		name, anon = name[:i], name[i+1:]
+	}
+	pick := func(fn *ssa.Function) *ssa.Function {
+		if fn == nil || anon == "" {
+			return fn
+		}
+		var k int
+		fmt.Sscan(anon, &k)
+		if k >= 1 && k <= len(fn.AnonFuncs) {
+			return fn.AnonFuncs[k-1]
+		}
+		return nil
+	}
 	if ct.Recv == "" {
-		return p.Func(ct.Func)
+		return pick(p.Func(name))
 	}
 	t := p.Type(ct.Recv)
 	if t == nil {
@@ -94,9 +109,9 @@ func (l *Loaded) FindFunc(ct *Contract) *ssa.Function {
 	for _, ty := range []gotypes.Type{t.Type(), gotypes.NewPointer(t.Type())} {
 		ms := gotypes.NewMethodSet(ty)
 		for i := 0; i < ms.Len(); i++ {
-			if f, ok := ms.At(i).Obj().(*gotypes.Func); ok && f.Name() == ct.Func && len(ms.At(i).Index()) == 1 {
+			if f, ok := ms.At(i).Obj().(*gotypes.Func); ok && f.Name() == name && len(ms.At(i).Index()) == 1 {
 				if fn := l.Prog.FuncValue(f); fn != nil {
-					return fn
+					return pick(fn)
 				}
 			}
 		}
